@@ -256,7 +256,7 @@ Theorem C18H_dispatch_cookie_challenge :
   = mk_ep E (table E ep) (S (next_cid E ep)) (confs E ep) (ep_cookie_secret E ep) rest (ep_now E ep) (ep_kops E ep)
           (ep_sent E ep ++ [cookie_datagram (spiZ (be_encode 8 (Z.to_N (h_spi_i h)))) (spiZ spi) (h_id h)
                                              (cookie_for E (ep_cookie_secret E ep) (h_spi_i h) n peer)])
-          (Some (next_cid E ep)).
+          (Some (next_cid E ep)) (ep_status E ep).
 Proof. exact dispatch_cookie_challenge. Qed.
 Print Assumptions C18H_dispatch_cookie_challenge.
 
@@ -281,7 +281,7 @@ Theorem C18H_iteration_cookie_challenge :
   = timers E (mk_ep E (table E ep) (S (next_cid E ep)) (confs E ep) (ep_cookie_secret E ep) rest tnow []
                     [cookie_datagram (spiZ (be_encode 8 (Z.to_N (h_spi_i h)))) (spiZ spi) (h_id h)
                                      (cookie_for E (ep_cookie_secret E ep) (h_spi_i h) n peer)]
-                    (Some (next_cid E ep))).
+                    (Some (next_cid E ep)) None).
 Proof. exact iteration_cookie_challenge. Qed.
 Print Assumptions C18H_iteration_cookie_challenge.
 
@@ -338,14 +338,14 @@ Theorem C18H_below_threshold_not_armed :
   halfopen E (table E ep0) <= cookie_threshold ->
   cookie_secret (co (inner (hdl_iface E) s0)) = None /\ arm E ep0 s0 = s0 /\
   dispatch E ep (Dg h my peer (Some m))
-  = handle E (routed E (with_table E ep0 (replace E (table E ep0) cid s0)) cid) cid s0 m.
+  = handle_fresh E (routed E (with_table E ep0 (replace E (table E ep0) cid s0)) cid) cid s0 m.
 Proof. exact dispatch_below_threshold_not_armed. Qed.
 Print Assumptions C18H_below_threshold_not_armed.
 
-(** the boundary of "leaves no IKE_SA behind": an IKE_SA_INIT request with the INITIATOR flag clear or a Message ID
-    other than 0 gets no reply and its freshly created entry STAYS in the table (state INITIAL) - under any load, with
-    or without a cookie *)
-Theorem C18H_ignored_init_request_stays :
+(** an IKE_SA_INIT request with the INITIATOR flag clear or a Message ID other than 0 is ignored by the fresh IkeSa:
+    no reply, no kernel operation, only the two draws of IkeSa.__init__ - and (fix 73b0c79 of /repo) the freshly
+    created entry is removed again: the table is the old one, under any load, with or without a cookie *)
+Theorem C18H_ignored_init_request_leaves_nothing :
   forall E (ep : Endpoint.endpoint E) h my peer (m : pmsg body) cf spi j rest,
   h_exch h = EX_IKE_SA_INIT -> h_resp h = false -> p_hdr m = h ->
   find_conf E ep my peer = Some cf ->
@@ -354,23 +354,65 @@ Theorem C18H_ignored_init_request_stays :
   (h_init h = false \/ h_id h <> 0) ->
   let ep' := dispatch E ep (Dg h my peer (Some m)) in
   ep_sent E ep' = ep_sent E ep /\ ep_kops E ep' = ep_kops E ep /\ ep_tape E ep' = rest /\
-  exists s : Endpoint.esa E, table E ep' = table E ep ++ [(next_cid E ep, s)] /\ st (co (inner (hdl_iface E) s)) = ST_INITIAL.
-Proof. exact dispatch_ignored_init_request_stays. Qed.
-Print Assumptions C18H_ignored_init_request_stays.
+  table E ep' = table E ep.
+Proof. exact dispatch_ignored_init_request_leaves_nothing. Qed.
+Print Assumptions C18H_ignored_init_request_leaves_nothing.
 
-(** hence the clause without the hypotheses "INITIATOR flag set, Message ID 0" is false of the model *)
-Theorem C18H_leaves_no_ike_sa_behind_unrestricted_refuted :
-  ~ (forall E (ep : Endpoint.endpoint E) h my peer (m : pmsg body) cf spi j rest n,
-        h_exch h = EX_IKE_SA_INIT -> h_resp h = false -> p_hdr m = h ->
-        find_conf E ep my peer = Some cf ->
-        ep_tape E ep = D_bytes spi :: D_num j :: rest ->
-        (forall x, In x (table E ep) -> fst x <> next_cid E ep) ->
-        halfopen E (table E ep) + 1 > cookie_threshold ->
-        has_triple m false n ->
-        presented m <> Some (cookie_for E (ep_cookie_secret E ep) (h_spi_i h) n peer) ->
-        table E (dispatch E ep (Dg h my peer (Some m))) = table E ep).
-Proof. exact leaves_no_ike_sa_behind_unrestricted_refuted. Qed.
-Print Assumptions C18H_leaves_no_ike_sa_behind_unrestricted_refuted.
+(** hence "leaves no IKE_SA behind" WITHOUT any hypothesis on the INITIATOR flag or the Message ID: above the
+    threshold, an IKE_SA_INIT request that does not carry the correct cookie leaves exactly the old table, issues no
+    kernel operation and consumes the two draws of IkeSa.__init__ only (no D_dh: no Diffie-Hellman work) *)
+Theorem C18H_leaves_no_ike_sa_behind :
+  forall E (ep : Endpoint.endpoint E) h my peer (m : pmsg body) cf spi j rest n,
+  h_exch h = EX_IKE_SA_INIT -> h_resp h = false -> p_hdr m = h ->
+  find_conf E ep my peer = Some cf ->
+  ep_tape E ep = D_bytes spi :: D_num j :: rest ->
+  (forall x, In x (table E ep) -> fst x <> next_cid E ep) ->
+  halfopen E (table E ep) + 1 > cookie_threshold ->
+  (has_triple m false n /\ presented m <> Some (cookie_for E (ep_cookie_secret E ep) (h_spi_i h) n peer))
+  \/ (get_payloads m K_SA false = [] \/ get_payloads m K_NONCE false = [] \/ get_payloads m K_KE false = []) ->
+  table E (dispatch E ep (Dg h my peer (Some m))) = table E ep
+  /\ ep_kops E (dispatch E ep (Dg h my peer (Some m))) = ep_kops E ep
+  /\ ep_tape E (dispatch E ep (Dg h my peer (Some m))) = rest.
+Proof. exact leaves_no_ike_sa_behind. Qed.
+Print Assumptions C18H_leaves_no_ike_sa_behind.
+
+(** the two ingredients: a malformed IKE_SA_INIT request (INVALID_SYNTAX) leaves nothing behind, and in general a
+    request the fresh IkeSa answers by ending (state DELETED after process_message) never does *)
+Theorem C18H_malformed_init_request_leaves_nothing :
+  forall E (ep : Endpoint.endpoint E) h my peer (m : pmsg body) cf spi j rest,
+  h_exch h = EX_IKE_SA_INIT -> h_resp h = false -> h_init h = true -> h_id h = 0 -> p_hdr m = h ->
+  find_conf E ep my peer = Some cf ->
+  ep_tape E ep = D_bytes spi :: D_num j :: rest ->
+  (forall x, In x (table E ep) -> fst x <> next_cid E ep) ->
+  (get_payloads m K_SA false = [] \/ get_payloads m K_NONCE false = [] \/ get_payloads m K_KE false = []) ->
+  table E (dispatch E ep (Dg h my peer (Some m))) = table E ep
+  /\ ep_kops E (dispatch E ep (Dg h my peer (Some m))) = ep_kops E ep
+  /\ ep_tape E (dispatch E ep (Dg h my peer (Some m))) = rest.
+Proof. exact dispatch_malformed_init_request. Qed.
+Print Assumptions C18H_malformed_init_request_leaves_nothing.
+
+Theorem C18H_init_request_ended_leaves_nothing :
+  forall E (ep : Endpoint.endpoint E) h my peer (m : pmsg body) cf ep0 cid (s0 : Endpoint.esa E),
+  dispatch_is_init_request (h_exch h) (negb (h_resp h)) = true -> find_conf E ep my peer = Some cf ->
+  create E ep false (be_encode 8 (Z.to_N (h_spi_i h))) cf my peer = Some (ep0, cid, s0) ->
+  (forall x, In x (table E ep) -> fst x <> next_cid E ep) ->
+  let ep1 := routed E (with_table E ep0 (replace E (table E ep0) cid (arm E ep0 s0))) cid in
+  let r := process_message (hdl_iface E) (enter E ep1 (arm E ep0 s0)) m (ep_now E ep1) in
+  state (hdl_iface E) (fst r) = ST_DELETED ->
+  table E (dispatch E ep (Dg h my peer (Some m))) = table E ep
+  /\ ep_kops E (dispatch E ep (Dg h my peer (Some m))) = ep_kops E ep
+  /\ ep_tape E (dispatch E ep (Dg h my peer (Some m))) = tape (inner (hdl_iface E) (fst r)).
+Proof. exact dispatch_init_request_ended. Qed.
+Print Assumptions C18H_init_request_ended_leaves_nothing.
+
+(** on the toy endpoint with 11 half-open entries: Message ID 1, or INITIATOR flag clear - no reply, 11 entries after *)
+Theorem C18H_ex_ignored_request_leaves_nothing :
+  let a := dispatch CookieToy.E0 (CookieToy.ep_n 11) (CookieToy.dgm (CookieToy.with_id CookieToy.mR1 1)) in
+  let b := dispatch CookieToy.E0 (CookieToy.ep_n 11) (CookieToy.dgm (CookieToy.with_init CookieToy.mR1 false)) in
+  ep_sent CookieToy.E0 a = [] /\ length (table CookieToy.E0 a) = 11%nat /\ halfopen CookieToy.E0 (table CookieToy.E0 a) = 11 /\
+  ep_sent CookieToy.E0 b = [] /\ length (table CookieToy.E0 b) = 11%nat /\ halfopen CookieToy.E0 (table CookieToy.E0 b) = 11.
+Proof. exact CookieToy.ignored_request_leaves_nothing_witness. Qed.
+Print Assumptions C18H_ex_ignored_request_leaves_nothing.
 
 (* ------------------------------------------------------------------------------------------------ *)
 (** * (4) The initiator's retry *)
